@@ -372,6 +372,8 @@ func TestC20H_History(t *testing.T) {
 			a.ConversionTraffic(t)
 			if rapid.IntRange(0, 2).Draw(t, "other") == 0 {
 				a.Traffic(t)
+			} else {
+				a.LabTraffic(t) // among others: conversions whose origin is a contract (CONVERT opcode)
 			}
 			// conversions are confirmed by prime blocks: mine those often
 			order := rapid.SampledFrom([]int{sim.Prime, sim.Prime, sim.Zone, sim.Zone, sim.Region}).Draw(t, "order")
@@ -395,6 +397,7 @@ func TestC20H_History(t *testing.T) {
 		add(agg.reverted > 0, "reverted")
 		add(agg.bothDirections > 0, "both_directions_in_one_prime_block")
 		add(agg.multi > 0, "two_or_more_conversions_in_one_prime_block")
+		add(a.Labels["tx_labconvert"] > 0, "contract_originated_conversion_submitted")
 		add(creditsDue > 0, "qi2quai_credit_due")
 		add(creditsDeep > 0, "qi2quai_credit_past_second_lookback_depth")
 		for r := range agg.regimes {
